@@ -185,6 +185,11 @@ class TunnelExitSocket(RoutingObject, TaskManager):
                                          ignore=(OSError, ValueError)).add_done_callback(on_address)
             return
 
+        # TunnelCommunity.on_data only sees the destination as it was sent: a host name can still resolve to 0.0.0.0.
+        if destination == ("0.0.0.0", 0):
+            self.logger.warning("Cannot exit data, destination resolved to 0.0.0.0:0")
+            return
+
         transport = self.transport_ipv6 if isinstance(destination, UDPv6Address) else self.transport_ipv4
 
         if not transport:
